@@ -694,10 +694,18 @@ impl std::ops::Mul<f32> for Interval {
     fn mul(self, rhs: f32) -> Self {
         if self.has_nan() || rhs.is_nan() {
             f32::NAN.into()
-        } else if rhs < 0.0 {
-            Interval::new(self.upper * rhs, self.lower * rhs)
         } else {
-            Interval::new(self.lower * rhs, self.upper * rhs)
+            let (lower, upper) = if rhs < 0.0 {
+                (self.upper * rhs, self.lower * rhs)
+            } else {
+                (self.lower * rhs, self.upper * rhs)
+            };
+            if lower.is_nan() || upper.is_nan() {
+                // e.g. a zero bound times an infinite scale
+                f32::NAN.into()
+            } else {
+                Interval::new(lower, upper)
+            }
         }
     }
 }
